@@ -118,14 +118,25 @@ def _runs(mask):
     return runs
 
 
+RUN_ORDER = {"shuffle": None}  # set to a permutation function by a foreign writer (see encode(order=))
+
+
 def enc_segmented(mask, data, rec):
     runs = _runs(mask)
     if len(data) != rec * mask.count("1"):
         raise LayoutError("data length does not match mask")
-    out = [struct.pack("<ii", len(runs), 0)]
+    blobs, p = [], 0
     for s, n in runs:
-        out.append(struct.pack("<ii", s, n))
-    out.append(data)
+        blobs.append(data[p : p + rec * n])
+        p += rec * n
+    order = list(range(len(runs)))
+    if RUN_ORDER["shuffle"] is not None and len(runs) > 1:
+        order = RUN_ORDER["shuffle"](order)
+    out = [struct.pack("<ii", len(runs), 0)]
+    for k in order:
+        out.append(struct.pack("<ii", *runs[k]))
+    for k in order:
+        out.append(blobs[k])
     return b"".join(out)
 
 
@@ -165,7 +176,15 @@ def dec_segmented(r, nframes, rec):
 # blocks
 
 
-def encode(C):
+def encode(C, run_order=None):
+    """run_order: None = canonical (ascending runs); a function list->list = the order in which a
+    foreign writer lists the runs of each track (the format does not prescribe one)."""
+    if run_order is not None:
+        RUN_ORDER["shuffle"] = run_order
+        try:
+            return encode(C)
+        finally:
+            RUN_ORDER["shuffle"] = None
     t = C["t"]
     o = []
     if t == "data3d":
